@@ -14,7 +14,7 @@ ASSUMPTIONS = base.ASSUMPTIONS + [
     'input is an integer or the shift does not change its sign (otherwise C01 itself dictates a different code; counter-example proved in Lean)']
 RULE = ('Q1 lines with overflow=wrap: every quarter-LSB input over 3x range of every format n_word<=4 (quick)/<=6 (thorough), all roundings; random core-domain formats to 52 bits; '
         'W3: Python integers (+-2^k+-1, multiples of the modulus +- small, random up to 4x word) into n_word in 1..52 and 64..256; WS: shift invariance judged on the implementation alone; '
-        'WR: add/sub/mul of two codes stored into the same n_frac=0 format with wrap (n_word<=52 and >=64). non-trivial = the rounded input lies outside the range (wrap acted)')
+        'WR: add/sub/mul of two codes stored into the same n_frac=0 format with wrap (n_word<=52 and >=64); WQ: add/sub/mul of operands of any two formats (2..52 bits, 0<=n_frac<=n_word) landing in a wrap register with a fraction length of its own, in particular fewer fraction bits than the exact result has (out=, np.<op>(out=), config.op_out, or op_sizing=same), the exact result inside the core domain, all five roundings. non-trivial = the rounded input lies outside the range (wrap acted)')
 TECHNIQUE = 'Lean 4 theorems (wrap in range + congruent + unique, = Int.bmod, shift invariance, add/sub/mul homomorphism, for every n_word) + differential correspondence incl. n_word 64..256'
 LEVEL_TEXT = ('Machine-checked for every word length n>=1 (no 64 in any statement): the model wrap (mask then sign-extend, as utils.wrap) is in range, congruent mod 2^n and the unique such integer, equals the balanced '
               'remainder when signed, is invariant under input shifts by multiples of 2^(n_word-n_frac) (floor/ceil/around; trunc/fix under the stated side condition, with a proved counter-example otherwise) and is a ring homomorphism image '
@@ -100,7 +100,35 @@ def exec_WR(t):
         return [exc_token(e)]
 
 
-EXEC = {'Q1': exec_Q1, 'W3': exec_W3, 'WS': exec_WS, 'WR': exec_WR}
+def exec_WQ(t):
+    sx, nx, fx, sy, ny, fy, op, a, b, sr, nr, fr, r, route = t
+    import fxpmath
+    try:
+        x = Fxp(int(a), sx == 's', int(nx), int(fx), raw=True)
+        y = Fxp(int(b), sy == 's', int(ny), int(fy), raw=True)
+        out = Fxp(None, sr == 's', int(nr), int(fr), overflow='wrap', rounding=r)
+        if route == 'out':
+            z = {'add': fxpmath.add, 'sub': fxpmath.sub, 'mul': fxpmath.mul}[op](x, y, out=out)
+        elif route == 'npout':
+            z = {'add': np.add, 'sub': np.subtract, 'mul': np.multiply}[op](x, y, out=out)
+        elif route == 'config':
+            x.config.op_out = out
+            z = {'add': lambda: x + y, 'sub': lambda: x - y, 'mul': lambda: x * y}[op]()
+        else:
+            # 'same': no holder at all - both operands have the register's format and the result is sized like them
+            x.config.op_sizing = 'same'; x.config.overflow = 'wrap'; x.config.rounding = r
+            z = {'add': lambda: x + y, 'sub': lambda: x - y, 'mul': lambda: x * y}[op]()
+            if (z.signed, z.n_word, z.n_frac) != (sr == 's', int(nr), int(fr)):
+                return ['NOTSAME']
+            return [str(codes_of(z)[0])]
+        if z is not out:
+            return ['NOTOUT']
+        return [str(codes_of(z)[0])]
+    except Exception as e:
+        return [exc_token(e)]
+
+
+EXEC = {'Q1': exec_Q1, 'W3': exec_W3, 'WS': exec_WS, 'WR': exec_WR, 'WQ': exec_WQ}
 
 
 def _big_ints(rng, n, f):
@@ -183,10 +211,49 @@ def generate(tier, rng):
         if nr <= 52 or n >= 64:
             yield 'WR %s %d 0 %s %d %d %s %d %s' % ('s' if signed else 'u', n, op, max(lo, min(hi, a)), max(lo, min(hi, b)),
                                                  's' if sr else 'u', nr, rng.choice(['out', 'out', 'npout', 'config']))
+    yield from gen_WQ(tier, rng)
+
+
+def gen_WQ(tier, rng):
+    # registers with a fraction length of their own - in particular fewer fraction bits than the exact result has: the fixed-point
+    # multiply s32/16 * s32/16 -> s32/16, and sums landing in a coarser register; the exact result stays in the core domain
+    # (|v| < 2^53, |v * 2^n_frac| < 2^62)
+    for _ in range(2500 if tier == 'quick' else 50000):
+        op = rng.choice(['mul', 'mul', 'add', 'sub'])
+        same = rng.random() < 0.3
+        sx = rng.random() < 0.6
+        sy = sx if same else rng.random() < 0.6
+        nx = rng.choice([8, 16, 24, 30, 31, 32, 33, 40, 48, 52, rng.randint(2, 52)])
+        ny = nx if same else rng.choice([8, 16, 24, 30, 31, 32, 33, 40, 48, 52, rng.randint(2, 52)])
+        fx = rng.randint(0, nx)
+        fy = fx if same else rng.randint(0, ny)
+        ix, iy = nx - fx, ny - fy                   # integer bits (sign included)
+        fe = fx + fy if op == 'mul' else max(fx, fy)
+        ie = ix + iy if op == 'mul' else max(ix, iy) + 1
+        if ie > 52:
+            continue
+        if same:
+            sr, nr, fr = sx, nx, fx
+            route = 'same'
+        else:
+            sr = True if (sx or sy or op == 'sub') else rng.random() < 0.5
+            fr = rng.choice([fe, max(0, fe - rng.randint(1, fe)) if fe else 0, rng.randint(0, fe) if fe else 0, fx, fy, 0])
+            nr = rng.choice([8, 16, 24, 32, 40, 52, rng.randint(max(2, min(fr, 52)), 52)])
+            route = rng.choice(['out', 'out', 'npout', 'config'])
+        if ie + fr > 61 or not (-8 <= fr <= nr + 8):
+            continue
+        lox, hix = lims(sx, nx); loy, hiy = lims(sy, ny)
+        big = lambda lo, hi: rng.choice([hi, lo, hi - rng.randint(0, 1 << 12), lo + rng.randint(0, 1 << 12), rng.randint(lo, hi), rng.randint(lo, hi),
+                                         (hi >> 1) + rng.randint(0, 1 << 10), rng.randint(hi >> 1, hi)])
+        a = max(lox, min(hix, big(lox, hix))); b = max(loy, min(hiy, big(loy, hiy)))
+        yield 'WQ %s %d %d %s %d %d %s %d %d %s %d %d %s %s' % ('s' if sx else 'u', nx, fx, 's' if sy else 'u', ny, fy, op, a, b,
+                                                                 's' if sr else 'u', nr, fr, rng.choice(ROUNDS), route)
 
 
 def nontrivial(full_line, model):
     t = full_line.split(' | ')[0].split()
+    if t[0] == 'WQ':
+        return True
     if t[0] == 'Q1':
         return parse_list(t[8]) != parse_list(model.split()[1]) if len(model.split()) > 1 else True
     if t[0] == 'W3':
@@ -202,10 +269,12 @@ def nontrivial(full_line, model):
 
 
 def debug_class(t):
+    if t[0] == 'WQ':
+        return 'WQ %s %s fewer=%s' % (t[7], t[14], int(t[12]) < (int(t[3]) + int(t[6]) if t[7] == 'mul' else max(int(t[3]), int(t[6]))))
     return ' '.join([t[0], base.word_bucket(int(t[2]))] + ([t[6], t[7]] if t[0] == 'Q1' else [t[4] if t[0] in ('WR',) else t[5] if t[0] == 'W3' else '']))
 
 
 def stats(verdicts):
-    return base.generic_stats(verdicts, lambda t: ['op:' + t[0], 'word:' + base.word_bucket(int(t[2])), 'signed:' + t[1]],
+    return base.generic_stats(verdicts, lambda t: ['op:' + t[0], 'word:' + base.word_bucket(int(t[2])), 'signed:' + t[1]] + (['wq:' + t[7], 'wq-route:' + t[14]] if t[0] == 'WQ' else []),
                               lambda t: len(parse_list(t[8])) if t[0] == 'Q1' else len(parse_list(t[6])) if t[0] == 'W3' else 1,
                               ['Q1/wrap: every quarter-LSB input over 3x range, every format n_word<=4 (quick) / <=6 (thorough), -8<=n_frac<=n_word+8, 5 roundings'])
